@@ -215,7 +215,6 @@ void OPNMIDIplay::resetMIDI()
 {
     Synth &synth = *m_synth;
     synth.m_masterVolume = MasterVolumeDefault;
-    m_sysExDeviceId = 0;
     m_synthMode = Mode_XG;
     m_arpeggioCounter = 0;
 
